@@ -116,6 +116,8 @@ type run struct {
 	hRetAt   atomic.Int64 // unix nanos at which the handler began returning
 	cGot     atomic.Int64 // responses received by the client
 	inRepeat atomic.Bool  // client is inside Receive after the terminal result was returned
+	inEOF    atomic.Bool  // handler is inside a Receive that must yield end-of-stream
+	closeIdx int          // index of the client's CloseSend op (-1: none)
 	cDone    chan struct{}
 	hDone    chan struct{}
 
@@ -232,7 +234,9 @@ func (r *run) handler(_ context.Context, srv freighter.ServerStream[Req, Res]) (
 		}
 		switch op.Kind {
 		case "recv":
+			r.inEOF.Store(exp.kind == "eof")
 			req, err := srv.Receive()
+			r.inEOF.Store(false)
 			r.tick()
 			if r.stopped() {
 				return errAborted
@@ -349,6 +353,33 @@ func (r *run) receive(st *clientState, stream freighter.ClientStream[Req, Res]) 
 	res, err := stream.Receive()
 	r.tick()
 	return res, err
+}
+
+// eofOverdue reports whether the handler sits in a Receive that must yield end-of-stream
+// while the client's CloseSend has already returned.
+func (r *run) eofOverdue() bool {
+	if !r.inEOF.Load() || r.closeIdx < 0 {
+		return false
+	}
+	select {
+	case <-r.done[r.closeIdx]:
+		return true
+	default:
+		return false
+	}
+}
+
+func (r *run) reqsBeforeClose() int {
+	n := 0
+	for _, i := range r.pl.cOps[:] {
+		if i >= r.closeIdx {
+			break
+		}
+		if r.pl.ops[i].Kind == "send" {
+			n++
+		}
+	}
+	return n
 }
 
 func (r *run) respSize(seq int) int {
@@ -527,8 +558,12 @@ func (tp *transport) execute(sc Script, rep *kit.Report) error {
 		done: make([]chan struct{}, len(pl.ops)), abortCh: make(chan struct{}), cancel: cancel,
 		cDone: make(chan struct{}), hDone: make(chan struct{}),
 	}
+	r.closeIdx = -1
 	for i := range r.done {
 		r.done[i] = make(chan struct{})
+		if pl.ops[i].Side == "c" && pl.ops[i].Kind == "close" && !pl.exp[i].postRet {
+			r.closeIdx = i
+		}
 	}
 	client, addr, err := tp.prepare(tp, sc)
 	if err != nil {
@@ -548,6 +583,13 @@ func (tp *transport) execute(sc Script, rep *kit.Report) error {
 	}
 	if m.closeConsumed {
 		rep.Class("handler-sees-eof")
+	}
+	if m.closeOnFull {
+		rep.Class("closesend-on-full-buffer")
+		rep.Class(fmt.Sprintf("closesend-on-full-buffer:buf=%d", sc.Buf))
+		if m.closeOnFullHeld {
+			rep.Class("closesend-on-full-buffer-held")
+		}
 	}
 	if m.recvAfterEOF {
 		rep.Class("handler-recv-after-eof")
@@ -653,9 +695,19 @@ func (tp *transport) execute(sc Script, rep *kit.Report) error {
 					rep.Class("leaked-goroutine")
 					cDone, hDone = nil, nil
 				}
-			case r.inRepeat.Load() && stalled > int(repeatWatchdog/tickEvery):
-				r.fail("terminal-repeat-blocks", "a Receive call made after the client had already received the terminal result did not return within %v (handler returned %s)", repeatWatchdog, r.kind.name)
-				stalled = 0
+			case r.inRepeat.Load():
+				if stalled > int(repeatWatchdog/tickEvery) {
+					r.fail("terminal-repeat-blocks", "a Receive call made after the client had already received the terminal result did not return within %v (handler returned %s)", repeatWatchdog, r.kind.name)
+					stalled = 0
+				}
+			case r.eofOverdue():
+				// The client's CloseSend has returned and the handler has received every
+				// earlier request (it is in the Receive that the model says yields EOF):
+				// nothing is left to wait for but the end-of-stream marker.
+				if stalled > int(repeatWatchdog/tickEvery) {
+					r.fail("handler-eof-missing", "the client's CloseSend (op %d) returned and the handler received all %d earlier requests, but the handler's next Receive did not return end-of-stream within %v", r.closeIdx, r.reqsBeforeClose(), repeatWatchdog)
+					stalled = 0
+				}
 			case stalled > int(wd/tickEvery):
 				timeoutsSeen.Add(1)
 				rep.Class("timeout")
